@@ -2,8 +2,12 @@ package main
 
 import (
 	"bytes"
+	"context"
+	"errors"
 	"fmt"
+	"time"
 
+	ch "github.com/ClickHouse/ch-go"
 	"github.com/ClickHouse/ch-go/compress"
 	"github.com/ClickHouse/ch-go/proto"
 )
@@ -279,6 +283,7 @@ func runC07(c *Ctx) {
 			c07Block(c, r, cols, len(lens), 54460)
 		}
 	}
+	c07ExceptionChains(c, r.Fork())
 	revs := c17Revisions(false)
 	per := 2
 	if c.Thorough {
@@ -295,6 +300,51 @@ func runC07(c *Ctx) {
 					continue
 				}
 				c07Message(c, r, m, v)
+			}
+		}
+	}
+}
+
+// server exception chains (a sequence of Exception records linked by their Nested flag) read by the client during a query:
+// the stream is cut at every byte of the chain — inside the first record, inside a nested one, exactly between two records.
+// A cut chain is not a complete message: the call must not report it as the server's exception.
+func c07ExceptionChains(c *Ctx, r *Rng) {
+	R := c.R
+	depths := []int{1, 2, 3}
+	if c.Thorough {
+		depths = []int{1, 2, 3, 5}
+	}
+	for _, depth := range depths {
+		var chain []srvExc
+		for i := 0; i < depth; i++ {
+			chain = append(chain, srvExc{code: int32(60 + i), name: fmt.Sprintf("DB::Exception%d", i), message: string(r.Bytes(r.Intn(20))), stack: "stack"})
+		}
+		full := srvEnc{rev: 54460}.exception(chain)
+		for cut := 0; cut <= len(full); cut++ {
+			sc, err := connectSim(simOpts{readTimeout: 500 * time.Millisecond})
+			if err != nil {
+				R.Note("exception chain: %v", err)
+				return
+			}
+			sc.conn.feed(full[:cut])
+			sc.conn.setEOF()
+			ctx, cancel := context.WithTimeout(context.Background(), 5*time.Second)
+			derr := sc.client.Do(ctx, ch.Query{Body: "SELECT 1"})
+			cancel()
+			sc.client.Close()
+			cs := map[string]any{"kind": "exception-chain", "depth": depth, "cut": cut, "of": len(full), "stream": hx(full[:cut]), "error": fmt.Sprint(derr)}
+			R.Case(fmt.Sprintf("exception-chain|%d|%d", depth, cut), cut < len(full))
+			R.Count("shape:exception-chain-prefix")
+			var exc *ch.Exception
+			isExc := errors.As(derr, &exc)
+			switch {
+			case cut == len(full):
+				if !isExc {
+					R.Violate(Violation{Kind: "oracle", Key: "exception-chain-not-reported", What: fmt.Sprintf("the complete chain of %d exceptions was not reported as a server exception: %v", depth, derr), Case: cs})
+				}
+			case derr == nil || isExc:
+				R.Violate(Violation{Kind: "oracle", Key: "prefix-accepted-exception-chain", What: fmt.Sprintf("an exception chain of %d records cut after %d of %d bytes was accepted as a complete server exception (%v)", depth, cut, len(full), derr), Case: cs})
+				return
 			}
 		}
 	}
